@@ -142,6 +142,14 @@ def constructed(rng):
         dd(a, p, b, q, "mul")
         dd(-a, p, b, q, "mul")
         dd(a, p, b - 1, q, "mul")
+    # 5b. operands at the widths of the primitive types (narrow-type fast paths, bit-length sums of 127/128/129)
+    tb = G.type_boundary_coeffs()
+    for c in tb:
+        for d in tb:
+            if rng.random() < 0.35:
+                p = rng.randrange(0, 19)
+                q = rng.randrange(0, 19)
+                dd(c, p, d, q)
     # 6. zero / one operands in every representation
     for s in range(19):
         for t in (0, 5, 18):
